@@ -79,6 +79,45 @@ AXES = {
             ("n", [19, 20, 21]),
         ],
     },
+    "kk_suggest": {
+        # the documented options of the number-of-RC suggestion (methods 1-6, three ways of combining them, manual
+        # limits) and a fixed extension, reached through the two entry points that forward **kwargs to it
+        "entry": "perform_kramers_kronig_test",
+        "axes": [
+            ("entry", ["perform_kramers_kronig_test", "perform_exploratory_kramers_kronig_tests"]),
+            ("test", ["real", "complex", "imaginary-inv", "complex-inv"]),
+            ("admittance", [False, True, None]),
+            ("methods", ["default", [1], [2], [3], [4], [5], [6], [1, 2], [3, 4, 5], [1, 2, 3, 4, 5, 6], [7], [0, 3], "empty"]),
+            ("combine", ["none", "none", "use_mean", "use_ranking", "use_sum", "mean+sum"]),
+            ("limits", ["auto", "auto", "lower2", "upper4", "lower_big", "upper1", "negative", "crossed", "equal", "delta3", "delta-2", "lower2+delta1"]),
+            ("mu", ["default", 0.5, 0.99, 1.5]),
+            ("log_F_ext", [0.0, -0.5, 0.4]),
+            ("n", [4, 5, 6, 8, 10, 13, 16, 21, 34]),
+        ],
+    },
+    "drt_bht_shape": {
+        "entry": "calculate_drt",
+        "axes": [
+            ("method", ["bht"]),
+            ("rbf_type", ["gaussian", "c2-matern", "inverse-quadratic", "cauchy"]),
+            ("rbf_shape", ["fwhm", "factor"]),
+            ("shape_coeff", [0.5, 0.1, 2.0, 0.0, -1.0]),
+            ("maximum_symmetry", [0.5, 0.0, 0.05, 1.0, 1.5]),
+            ("num_attempts", [1, 2]),
+            ("n", [5, 8, 13, 21]),
+        ],
+    },
+    "fit_constraints": {
+        "entry": "fit_circuit",
+        "axes": [
+            ("constraint", ["ratio", "sum", "unknown_name", "syntax_error", "missing_variable", "self_reference", "empty"]),
+            ("method", ["leastsq", "least_squares", "powell", "pair"]),
+            ("weight", ["boukamp", "modulus", "auto"]),
+            ("max_nfev", [-1, 20]),
+            ("timeout", [0, 5]),
+            ("n", [1, 3, 5, 8, 13, 21]),
+        ],
+    },
     "zhit": {
         "entry": "perform_zhit",
         "axes": [
@@ -155,8 +194,8 @@ AXES = {
 
 # relative number of runs per entry group (cheap groups get more)
 GROUP_WEIGHTS = {
-    "quick": {"kk_single": 16, "kk_explore": 8, "kk_eval": 12, "kk_cnls_big": 2, "zhit": 26, "drt_trnnls": 8, "drt_lm": 5, "drt_bht": 4, "drt_mrq": 2, "drt_other": 1, "fit": 18},
-    "thorough": {"kk_single": 18, "kk_explore": 10, "kk_eval": 14, "kk_cnls_big": 1, "zhit": 22, "drt_trnnls": 7, "drt_lm": 5, "drt_bht": 5, "drt_mrq": 3, "drt_other": 1, "fit": 15},
+    "quick": {"kk_single": 16, "kk_explore": 8, "kk_eval": 12, "kk_cnls_big": 2, "zhit": 26, "drt_trnnls": 8, "drt_lm": 5, "drt_bht": 4, "drt_mrq": 2, "drt_other": 1, "fit": 18, "kk_suggest": 14, "drt_bht_shape": 2, "fit_constraints": 5},
+    "thorough": {"kk_single": 18, "kk_explore": 10, "kk_eval": 14, "kk_cnls_big": 1, "zhit": 22, "drt_trnnls": 7, "drt_lm": 5, "drt_bht": 5, "drt_mrq": 3, "drt_other": 1, "fit": 15, "kk_suggest": 14, "drt_bht_shape": 3, "fit_constraints": 5},
 }
 
 
@@ -218,6 +257,52 @@ def build_workload(group, opts, rng):
         data["mask"] = []
         kw.update({"test": "cnls", "num_F_ext_evaluations": 0, "admittance": opts["admittance"], "add_capacitance": opts["add_capacitance"],
                    "add_inductance": opts["add_inductance"], "max_nfev": 100, "timeout": 60})
+        return wl
+    if group == "kk_suggest":
+        wl["entry"] = opts["entry"]
+        kw.update({"test": opts["test"], "admittance": opts["admittance"], "num_F_ext_evaluations": 0, "log_F_ext": opts["log_F_ext"]})
+        if opts["methods"] == "empty":
+            kw["methods"] = []
+        elif opts["methods"] != "default":
+            kw["methods"] = list(opts["methods"])
+        c = opts["combine"]
+        if c == "mean+sum":
+            kw["use_mean"] = True
+            kw["use_sum"] = True
+        elif c != "none":
+            kw[c] = True
+        lim = {"auto": {}, "lower2": {"lower_limit": 2}, "upper4": {"upper_limit": 4}, "lower_big": {"lower_limit": 50}, "upper1": {"upper_limit": 1},
+               "negative": {"lower_limit": -1}, "crossed": {"lower_limit": 5, "upper_limit": 3}, "equal": {"lower_limit": 2, "upper_limit": 2},
+               "delta3": {"limit_delta": 3}, "delta-2": {"limit_delta": -2}, "lower2+delta1": {"lower_limit": 2, "limit_delta": 1}}[opts["limits"]]
+        kw.update(lim)
+        if opts["mu"] != "default":
+            kw["mu_criterion"] = opts["mu"]
+        return wl
+    if group == "drt_bht_shape":
+        kw.update({"method": "bht", "rbf_type": opts["rbf_type"], "rbf_shape": opts["rbf_shape"], "shape_coeff": opts["shape_coeff"],
+                   "maximum_symmetry": opts["maximum_symmetry"], "num_attempts": opts["num_attempts"], "num_samples": 10})
+        return wl
+    if group == "fit_constraints":
+        fam = "R(RC)(RQ)"
+        p = gen.family_params(rng, fam, logf)
+        data["cdc"] = gen.family_cdc(fam, p)
+        wl["circuit"] = gen.family_cdc(fam, gen.perturbed(rng, p, 2.0))
+        m = rng.sample(gen.FAST_METHODS, 2) if opts["method"] == "pair" else opts["method"]
+        kw.update({"method": m, "weight": opts["weight"], "max_nfev": opts["max_nfev"]})
+        if opts["timeout"]:
+            kw["timeout"] = opts["timeout"]
+        ce, cv = {
+            "ratio": ({"R_3": "2 * R_1"}, None),
+            "sum": ({"R_3": "total - R_1"}, {"total": {"value": 600.0, "min": 1.0, "max": 1e6}}),
+            "unknown_name": ({"R_9": "2 * R_1"}, None),
+            "syntax_error": ({"R_3": "2 * * R_1 +"}, None),
+            "missing_variable": ({"R_3": "alpha * R_1"}, None),
+            "self_reference": ({"R_3": "R_3 * 1.0"}, None),
+            "empty": ({}, {}),
+        }[opts["constraint"]]
+        kw["constraint_expressions"] = ce
+        if cv is not None:
+            kw["constraint_variables"] = cv
         return wl
     if group.startswith("kk_"):
         for k in ("test", "admittance", "add_capacitance", "add_inductance", "num_F_ext_evaluations", "rapid_F_ext_evaluations"):
